@@ -329,6 +329,21 @@ fn construct_all(bs: &[u8], rep: &mut Report) -> Option<ByteString> {
     big.extend_from_slice(&[0x80, 0xff]);
     results.push(("Bytes slice of a larger buffer", ByteString::try_from(Bytes::from(big).slice(3..3 + bs.len())).ok()));
     results.push(("Bytes", ByteString::try_from(Bytes::copy_from_slice(bs)).ok()));
+    // the same ADDRESS and length as a buffer that validated a moment ago, other contents: a valid string of the same
+    // length is converted first, its buffer taken back (`try_into_mut`), overwritten in place and frozen again
+    // (seed17 C20-34 cached "this address and length validated")
+    if !bs.is_empty() {
+        let first = Bytes::from(vec![b'a'; bs.len()]);
+        let ok_first = ByteString::try_from(first.clone()).is_ok();
+        if let Ok(mut m) = first.try_into_mut() {
+            m.copy_from_slice(bs);
+            let again = ByteString::try_from(m.freeze()).ok();
+            if !ok_first {
+                rep.t3("C20", "an all-ASCII buffer was rejected");
+            }
+            results.push(("Bytes at the address of a buffer validated before", again));
+        }
+    }
     results.push(("BytesMut", ByteString::try_from(BytesMut::from(bs)).ok()));
     macro_rules! arr {
         ($($n:literal)+) => {$(
